@@ -50,6 +50,10 @@ def run_one(prop, case, inst):
         res = prop.run_case(case, inst)
     except CaseTimeout:
         res = {"ok": False, "sig": "timeout", "obs": "no result within the per-case time limit", "exp": "termination"}
+    except MemoryError:
+        import gc
+        gc.collect()
+        res = {"ok": False, "sig": "memory", "obs": "the case needed more memory than the per-worker limit", "exp": "termination within the limit"}
     except Exception as e:  # an exception escaping the property module's own handling is an observation too
         res = {"ok": False, "sig": f"exc:{type(e).__name__}", "obs": traceback.format_exc()[-1500:], "exp": "no exception"}
     finally:
@@ -72,8 +76,22 @@ def new_agg():
             "failsigs": {}, "fp": set(), "known": {}, "iso": {}}
 
 
+def _limit_memory():
+    """a per-process address-space limit (EQLMC_WORKER_MEM_GB, default 2.5): a case that never stops allocating - a changed
+    library that loops - fails with MemoryError instead of taking the machine down"""
+    try:
+        import resource
+        limit = int(float(os.environ.get("EQLMC_WORKER_MEM_GB", "2.5")) * (1 << 30))
+        soft, hard = resource.getrlimit(resource.RLIMIT_AS)
+        if hard == resource.RLIM_INFINITY or limit < hard:
+            resource.setrlimit(resource.RLIMIT_AS, (limit, hard))
+    except Exception:
+        pass
+
+
 def _run_batch(arg):
     pid, seed, batch = arg
+    _limit_memory()
     from eqlmc import kf
     prop = load_prop(pid)
     inst = Inst(seed)
